@@ -37,6 +37,11 @@ def build_cases(tier, seed):
                 # estimate), few plugs so that vehicles queue
                 ctrl = BUILTIN
                 prof.update({"search_type": "shortest_time_to_charge", "plug_counts": [1, 1, 2], "p_human": 0.4, "p_home_station": 0.2})
+        if i % 8 == 6:
+            # a user-written dispatcher on hive's assignment helper, ruling pairings out with infinite costs; parties of 1-4
+            ctrl = {"stack": ["SeatAware", "ChargingFleetManager"]}
+            prof.update({"n_requests": (120, 260), "n_vehicles": (5, 12), "soc": [0.5, 0.9], "fleets": 0})
+            opts = {"c16_twice_every": 1}
         cases.append(trace_case("C16", i, s, prof, ctrl, steps, ["C16"], opts=opts))
     if tier == "thorough":
         for w in ("denver_downtown/denver_demo.yaml", "denver_downtown/denver_demo_fleets.yaml"):
